@@ -33,8 +33,8 @@ def view_positions(L, ops):
         if op[0] == "rc":
             idx = idx[::-1]
             rev = not rev
-        elif op[0] == "copy":
-            pass            # seq.copy(): same residues, same absolute coordinates
+        elif op[0] in ("copy", "copyU", "deepcopy"):
+            pass            # seq.copy() / copy(sliced=False) / copy.deepcopy: same residues, same absolute coordinates
         else:
             _, a, b, c = op
             idx = idx[a:b:c]
@@ -117,7 +117,10 @@ def exhaustive_block(tier):
                     for m in (False, True):
                         if tier == "quick" and ((len(sp) > 1 and (m or off)) or (off and impl == "new" and m)):
                             continue
-                        cases.append(mk_case(impl, parent, off, [], ops, [[None, None, True]], add=[sp, m], block="add"))
+                        cases.append(mk_case(impl, parent, off, [], ops, [[None, None, True]], add=[sp, m, True], block="add"))
+                        if not m and len(sp) == 1:
+                            # strand left to its default (None)
+                            cases.append(mk_case(impl, parent, off, [], ops, [[None, None, True]], add=[sp, False, False], block="add"))
     return cases
 
 
@@ -150,8 +153,8 @@ def random_case(rng, strided=False):
         if r0 < 0.3:
             ops.append(["rc"])
             idx = idx[::-1]
-        elif r0 < 0.4 and not strided:
-            ops.append(["copy"])
+        elif r0 < 0.43 and not strided:
+            ops.append([rng.choice(["copy", "copy", "copyU", "deepcopy"])])
         else:
             n = len(idx)
             a = rng.randint(0, max(0, n - 1))
@@ -181,11 +184,12 @@ def random_case(rng, strided=False):
             return rng.randint(-n, -1)
         qs.append([bound(), bound(), rng.random() < 0.6])
     add = None
-    if rng.random() < 0.25 and not strided and ["copy"] not in ops:
+    if rng.random() < 0.25 and not strided and not any(o[0] in ("copy", "copyU", "deepcopy") for o in ops):
         k = rng.choice([1, 1, 2])
         pts = sorted(rng.sample(range(n + 1), min(2 * k, (n + 1) // 2 * 2)))
         if len(pts) >= 2:
-            add = [[[pts[2 * i], pts[2 * i + 1]] for i in range(len(pts) // 2)], rng.random() < 0.5]
+            minus = rng.random() < 0.4
+            add = [[[pts[2 * i], pts[2 * i + 1]] for i in range(len(pts) // 2)], minus, minus or rng.random() < 0.5]
     return mk_case(impl, parent, off, feats, ops, qs, add=add, block="strided" if strided else "random")
 
 
@@ -197,7 +201,7 @@ CORPUS = [
             [[None, None, True]], block="corpus"),
     mk_case("new", "AATC", 10, [[[[11, 13]], False]], [], [[None, None, True]], block="corpus"),
     mk_case("old", "ACGTACGTACGG", 0, [[[[4, 8]], False]], [["s", 2, None, None]], [[None, None, True]], block="corpus"),
-    mk_case("old", "GGATCACA", 0, [], [["s", 3, 6, None]], [[None, None, True]], add=[[[0, 1]], False], block="corpus"),
+    mk_case("old", "GGATCACA", 0, [], [["s", 3, 6, None]], [[None, None, True]], add=[[[0, 1]], False, True], block="corpus"),
 ]
 
 
@@ -216,6 +220,8 @@ def coq_op(op):
         return "HOp VRc"
     if op[0] == "copy":
         return "HCopy"
+    if op[0] in ("copyU", "deepcopy"):
+        return "HOp (VSlice None None None)"     # the view is rebuilt with the same numbers ([copy_view])
     return f"HOp (VSlice {oz(op[1])} {oz(op[2])} {oz(op[3])})"
 
 
@@ -276,7 +282,7 @@ def norm_impl_item(x):
 
 def is_contiguous(c, idx):
     """the view displays a contiguous parent segment (no slice of the history had a stride)"""
-    return all(op[0] in ("rc", "copy") or op[3] in (None, 1) for op in c["ops"]) or len(idx) == len(c["parent"])
+    return all(op[0] in ("rc", "copy", "copyU", "deepcopy") or op[3] in (None, 1) for op in c["ops"]) or len(idx) == len(c["parent"])
 
 
 def oracle_feature(c, idx, rev, k, spans, minus):
@@ -381,7 +387,7 @@ def compare_case(rep, c, impl, model, stats, pending):
     feats = [tuple(f) for f in c["feats"]]
     add_abs = None
     if c["add"] is not None:
-        sp, m = c["add"]
+        sp, m = c["add"][0], c["add"][1]
         # the residues the user pointed at, in absolute plus-strand coordinates
         n = len(idx)
         contiguous = is_contiguous(c, idx)
@@ -493,10 +499,13 @@ def aln_case(rng):
         feats.append([sid, [[pts[2 * i], pts[2 * i + 1]] for i in range(nsp)], rng.random() < 0.4])
     ops = []
     cols = list(range(ncol))
-    for _ in range(rng.choice([0, 0, 1, 1, 2, 3])):
-        if rng.random() < 0.3:
+    for _ in range(rng.choice([0, 0, 1, 1, 2, 3, 4])):
+        r0 = rng.random()
+        if r0 < 0.3:
             ops.append(["rc"])
             cols = cols[::-1]
+        elif r0 < 0.5:
+            ops.append(rng.choice([["deepcopy", True], ["deepcopy", True], ["deepcopy", False], ["copy"]]))
         else:
             n = len(cols)
             a = rng.randint(0, n - 1)
@@ -544,6 +553,8 @@ def aln_oracle(c):
         if op[0] == "rc":
             cols = cols[::-1]
             rev = not rev
+        elif op[0] in ("deepcopy", "copy"):
+            pass                                   # copies keep columns, residues and what features denote
         else:
             cols = cols[op[1]:op[2]]
     cset = set(cols)
@@ -568,7 +579,15 @@ def coq_alcase(c, fx=PINNED):
     fxs = "(" + ",".join(cbool(b) for b in fx) + ")"
     rows = "[" + ";".join(zstr(c["rows"][nm]) for nm in names) + "]"
     feats = "[" + ";".join(f"({names.index(sid)},{pairs(sp)},{cbool(m)})" for sid, sp, m in c["feats"]) + "]"
-    ops = "[" + ";".join("ARc" if o[0] == "rc" else f"ASlice {zlit(o[1])} {zlit(o[2])}" for o in c["ops"]) + "]"
+    def aop(o):
+        if o[0] == "rc":
+            return "AOp ARc"
+        if o[0] == "deepcopy":
+            return f"ACopy {cbool(o[1])}"
+        if o[0] == "copy":
+            return "ACopy false"
+        return f"AOp (ASlice {zlit(o[1])} {zlit(o[2])})"
+    ops = "[" + ";".join(aop(o) for o in c["ops"]) + "]"
     return f"({fxs}, {rows}, {feats}, {ops})"
 
 
@@ -592,7 +611,7 @@ def norm_aln_model(m):
 
 
 def norm_aln_impl(g, c, f):
-    if g is None:
+    if g is None or (isinstance(g, dict) and "rowcopy_only" in g):
         return None
     if isinstance(g, dict) and "exc" in g:
         return Exc(g["exc"])
@@ -627,6 +646,8 @@ def evaluate_aln(rep, cases, stats, fx=PINNED, dis=None):
             if isinstance(g, dict) and "exc" in g:
                 key = ("aln:query:raised:row-without-residues" if e["row_empty"] else f"aln:query:raised:E{g['exc']}:" + (
                        "span-ends-at-view-start" if e["abuts"] else "other"))
+            elif isinstance(g, dict) and "rowcopy_only" in g:
+                key = "aln:row-deepcopy:extra"
             elif (g is not None) != e["present"]:
                 key = f"aln:member:{'extra' if g is not None else 'missing'}"
             elif g is not None:
@@ -636,6 +657,8 @@ def evaluate_aln(rep, cases, stats, fx=PINNED, dis=None):
                     key = f"aln:slice:raised:E{g['slice']['exc']}"
                 elif g["slice"] != e["slice"]:
                     key = f"aln:slice:{'rc' if rev else 'fwd'}:{'-' if f[2] else '+'}"
+                elif g.get("rowcopy") is not None and g["rowcopy"] != [[e["slice"][f[0]].replace("-", "")]] * 2:
+                    key = "aln:row-deepcopy"
                 elif e["retained"]:
                     for nm, v in g["proj"].items():
                         if isinstance(v, dict):
@@ -666,6 +689,57 @@ def evaluate_aln(rep, cases, stats, fx=PINNED, dis=None):
             am = norm_aln_model(am[k]) if isinstance(am, list) else am
             if gi != am and dis is not None:
                 dis.append(dict(key="alignment", case=small, observed_impl=jsonable(gi), model_output=jsonable(mm)))
+
+
+# ------------------------------------------------------------------ old-style SequenceCollection (oracle only)
+
+def coll_case(rng):
+    names = ["s1", "s2", "s3"][:rng.randint(1, 3)]
+    rows = {nm: "".join(rng.choice("ACGT") for _ in range(rng.randint(3, 12))) for nm in names}
+    feats = []
+    for _ in range(rng.randint(1, 3)):
+        sid = rng.choice(names)
+        L = len(rows[sid])
+        nsp = rng.randint(1, min(3, (L + 1) // 2))
+        pts = sorted(rng.sample(range(L + 1), 2 * nsp))
+        feats.append([sid, [[pts[2 * i], pts[2 * i + 1]] for i in range(nsp)], rng.random() < 0.5])
+    ops = [rng.choice([["rc"], ["rc"], ["deepcopy", True], ["deepcopy", True], ["deepcopy", False], ["copy"]])
+           for _ in range(rng.choice([0, 1, 2, 2, 3, 4]))]
+    return dict(kind="coll", impl="old", rows=rows, feats=feats, ops=ops, block="collection")
+
+
+def evaluate_coll(rep, cases, stats):
+    """copies and reverse complements of a collection keep what every feature denotes"""
+    impl = core.run_impl_sharded("c04_impl.py", cases)
+    for c, ir in zip(cases, impl):
+        rev = sum(1 for o in c["ops"] if o[0] == "rc") % 2 == 1
+        if isinstance(ir, dict):
+            stats["violations"] += 1
+            rep.violation(f"coll:case-raised:E{ir.get('exc')}", dict(case=c, observed_impl=ir, broken="collection case raised"))
+            continue
+        for g, f in zip(ir, c["feats"]):
+            stats["evaluations"] += 1
+            sid, spans, minus = f
+            L = len(c["rows"][sid])
+            s = "".join(c["rows"][sid][a:b] for a, b in spans)
+            exp = [minus != rev, [[L - b, L - a] for a, b in reversed(spans)] if rev else spans, rcs(s) if minus else s]
+            how = "+".join(sorted({o[0] + ("" if len(o) == 1 else str(int(o[1]))) for o in c["ops"]})) or "none"
+            key = None
+            if g is None:
+                key = "coll:member:missing"
+            elif isinstance(g, dict):
+                key = f"coll:query:raised:E{g['exc']}"
+            elif isinstance(g[2], dict):
+                key = f"coll:slice:raised:E{g[2]['exc']}"
+            elif g != exp:
+                key = "coll:" + "+".join(n for n, x, y in zip(("strand", "coords", "slice"), g, exp) if x != y)
+            if key:
+                stats["violations"] += 1
+                rep.violation(key, dict(case=dict(c, feats=[f]), history=how, expected_by_spec=exp, observed_impl=g,
+                                        broken="a feature of a collection member does not denote the same residues after "
+                                               "rc / deepcopy / copy of the collection"))
+            else:
+                stats["nontrivial"].add(json.dumps([c["rows"][sid], c["ops"], f]))
 
 
 # ------------------------------------------------------------------ the check
@@ -806,11 +880,14 @@ def run(tier: str, seed: int) -> int:
                                 side_job=lambda primary: evaluate_aln(rep, aln_cases, aln_stats, primary, aln_dis))
     if "side" in stats:
         stats.pop("side").result()
+    rng_c = random.Random(seed * 6151 + 7)
+    coll_cases = [coll_case(rng_c) for _ in range(60 if tier == "quick" else 1500)]
+    evaluate_coll(rep, coll_cases, stats)
     stats["evaluations"] += aln_stats["evaluations"]
     stats["violations"] += aln_stats["violations"]
     stats["nontrivial"] |= aln_stats["nontrivial"]
     dis += aln_dis
-    dist = {"alignment": len(aln_cases)}
+    dist = {"alignment": len(aln_cases), "collection": len(coll_cases)}
     for c in cases:
         dist[c["block"]] = dist.get(c["block"], 0) + 1
     sample = next(c for c in cases if c["block"] == "random")
@@ -833,7 +910,10 @@ def run(tier: str, seed: int) -> int:
                  "add_feature through a view: proved end to end for the repaired variant on the view it is added to "
                  "(add_feature_end_to_end); what the root / other views then return follows from feature_slice_spec for the "
                  "stored record, and is additionally covered by correspondence + oracle",
-                 "degap, deepcopy, rename, features of new-style SequenceCollection: not covered"],
+                 "copies: seq.copy() is proved (history_with_copies), seq.copy(sliced=False) / copy.deepcopy are the [:] step of "
+                 "the proved histories; Alignment.deepcopy(sliced) / copy() are modelled and compared but not in a theorem; "
+                 "old-style SequenceCollection rc / deepcopy / copy: oracle only; new-style SequenceCollection.rc() documents "
+                 "that it drops the annotation db (not covered); degap, rename: not covered"],
         model_impl_disagreements=len(dis), spec_violations=stats["violations"], exhaustive=False,
         model_variant=stats["model_variant"],
     )
@@ -854,6 +934,13 @@ def replay(path: str) -> int:
     hits = []
     rep.violation = lambda key, r, no_input=False: hits.append((key, r.get("expected_by_spec")))
     stats = dict(evaluations=0, violations=0, nontrivial=set())
+    if c.get("kind") == "coll":
+        core.run_impl_sharded = lambda script, cases, *a, **k: [impl]
+        evaluate_coll(rep, [c], stats)
+        for k, e in hits:
+            print("oracle:", k, json.dumps(e))
+        print("REPRODUCED" if hits else "not reproduced")
+        return 1 if hits else 0
     if c.get("kind") == "aln":
         core.run_impl_sharded = lambda script, cases, *a, **k: [impl]
         evaluate_aln(rep, [c], stats)
